@@ -831,6 +831,77 @@ def lineend_exec(run, fx, rule='LINEENDPAIR', maxn=4):
     return cases, None
 
 
+class _Reached(Exception):
+    pass
+
+
+def justprologue_exec(run, fx):
+    """"every call returns": gr_seg_justify documents pFirst and pLast as optional (NULL = the line runs from pSlot to the end of the
+    segment).  The prologue of Segment::justify -- up to the first read of a slot's position -- is interpreted (rules/ordint.py) for
+    every combination of given / omitted pFirst and pLast, attached / unattached line ends, and both with and without the reversal for
+    a direction that differs from the font's: no slot pointer that is null is dereferenced (a member call through a null pointer is
+    reported by the interpreter), whatever the order in which the defaults are filled in and the two ends are swapped."""
+    from . import ordint as O
+    fn = fx.one('graphite2::Segment::justify')
+    PS, PG = 'graphite2::Slot::', 'graphite2::Segment::'
+    srec, grec = fx.record('graphite2::Slot'), fx.record('graphite2::Segment')
+    inst = 'justify fills in an omitted pFirst / pLast before it follows them (interpreted)'
+    cases = 0
+
+    def mkslot(k, parent=None):
+        s = O.Rec()
+        for f in srec['fields']:
+            s[PS + f['n']] = O.Ptr(None) if f.get('ptr') else 0
+        s['#'] = k
+        s[PS + 'm_parent'] = O.Ptr(parent)
+        return s
+    try:
+        for rev in (False, True):
+            for gf in (False, True):
+                for gl in (False, True):
+                    for attached in (False, True):
+                        base0, base1 = mkslot(0), mkslot(3)
+                        first = mkslot(1, base0 if attached else None)
+                        last = mkslot(2, base1 if attached else None)
+                        seg = O.Rec()
+                        for f in grec['fields']:
+                            seg[PG + f['n']] = O.Ptr(None) if f.get('ptr') else 0
+                        seg[PG + 'm_first'], seg[PG + 'm_last'] = O.Ptr(first), O.Ptr(last)
+                        seg[PG + 'm_dir'] = 1 if rev else 0
+                        silf = O.Rec({'#silf': 1})
+                        seg[PG + 'm_silf'] = O.Ptr(silf)
+
+                        def stop(I, f, e, obj, a):
+                            raise _Reached()
+
+                        def revslots(I, f, e, obj, a, seg=seg):
+                            seg[PG + 'm_first'], seg[PG + 'm_last'] = seg[PG + 'm_last'], seg[PG + 'm_first']
+                            return None
+                        nat = {'graphite2::Segment::silf': lambda I, f, e, obj, a, silf=silf: O.Ptr(silf),
+                               'graphite2::Silf::flags': lambda I, f, e, obj, a: 1, 'graphite2::Silf::dir': lambda I, f, e, obj, a: 0,
+                               'graphite2::Silf::bidiPass': lambda I, f, e, obj, a: 0, 'graphite2::Silf::numPasses': lambda I, f, e, obj, a: 3,
+                               'graphite2::Silf::numJustLevels': stop, 'graphite2::Segment::reverseSlots': revslots,
+                               'graphite2::Slot::origin': stop, 'graphite2::Font::scale': lambda I, f, e, obj, a: 1,
+                               }
+                        it = O.Interp(fx, natives=nat)
+                        it.MAX_STEPS = 4000
+                        cases += 1
+                        desc = 'gr_seg_justify with pFirst %s, pLast %s, line ends %s, text direction %s the font\'s' % ('given' if gf else 'NULL', 'given' if gl else 'NULL',
+                                                                                                                             'attached to bases' if attached else 'unattached', 'opposite to' if rev else 'the same as')
+                        try:
+                            it.call(fn, seg, [O.Ptr(first), O.Ptr(None), 100, 0, O.Ptr(first) if gf else O.Ptr(None), O.Ptr(last) if gl else O.Ptr(None)])
+                        except _Reached:
+                            continue
+                        except O.Violation as v:
+                            run.violated('LINEBREAK', inst, fn.where(), '%s: %s (%s) -- the call does not return' % (desc, v.what, v.loc))
+                            return
+                        raise AnalysisBroken('justify returned before it read a slot position (%s)' % desc)
+    except AnalysisBroken as ex:
+        run.broken('LINEBREAK', inst, str(ex), fn.where())
+        return
+    run.held('LINEBREAK', inst, fn.where(), '%d calls' % cases)
+
+
 def jsonpair(run):
     """UNDO, the build with tracing compiled in: Segment::justify writes one record per call into the face's json log -- it opens an
     object and an array in front of the justification passes and closes them after.  The writer keeps its open contexts on a fixed
@@ -929,6 +1000,7 @@ def run(run):
             run.held('LINEENDPAIR', inst_le, ale_.where(), '%d abstract executions' % cases_)
     except AnalysisBroken as ex:
         run.broken('LINEENDPAIR', inst_le, str(ex), '')
+    justprologue_exec(run, fx)
     from . import c02 as c02_
     c02_.localarrays(run, fx, 'UNDO')          # 'every call returns': the per-level totals of justify are not a fixed stack array (shared with C02)
     from . import c16 as c16_
